@@ -315,7 +315,8 @@ def rule_substscope(ctx):
             raise AnalysisError("R-SUBSTSCOPE: %s never substitutes into its body" % key)
         return got
 
-    lists = [()] + [p for k in (1, 2, 3) for p in itertools.permutations(("b", "y", "z"), k)]
+    pool = ("b", "y", "z", "w") if ctx.tier == "thorough" else ("b", "y", "z")
+    lists = [()] + [p for k in range(1, len(pool) + 1) for p in itertools.permutations(pool, k)]
     cases = [
         ("mu (binds a covariable)", "<%sterms::mu::Mu<Statement> as scc_core_lang::traits::substitution::Subst>::subst_sim" % CL,
          lambda: _Adt(CL + "terms::mu::Mu", "Mu", {"prdcns": _Adt(CL + "terms::Prd", "Prd", {}), "variable": ident("b"), "statement": _Sym("body"), "ty": _Sym("ty")}), "cons"),
